@@ -47,8 +47,8 @@ impl CmapSubtable {
             end_code.push(end as u32 as u16);
             if let Some(delta) = segment.id_delta {
                 // "The idDelta arithmetic is modulo 65536":
-                let delta = i16::try_from(delta)
-                    .unwrap_or_else(|_| delta.rem_euclid(0x10000).try_into().unwrap());
+                // (0..=0xFFFF reinterpreted as i16, so glyph ids >= 0x8000 don't panic)
+                let delta = delta.rem_euclid(0x10000) as u16 as i16;
                 id_deltas.push(delta);
                 id_range_offsets.push(0u16);
             } else {
